@@ -35,6 +35,15 @@ def prescribed (d : Def) (kwargs : List (Key × Value)) (body : Option Value) :
   d.params.filterMap (fun p => (boundValue p kwargs).map (fun v => (p.name, v)))
     ++ restEntry d (strEntries kwargs) ++ bodyEntry body
 
+/-- What one attribute says about the string key `k`. -/
+def Attr.mention (k : String) : Attr → Option Value
+  | .kv k' v => if k' == k then some v else none
+  | .spread es => lookupStr k (strEntries es)
+
+/-- The value of the right-most attribute that mentions `k`. -/
+def rightmost (attrs : List Attr) (k : String) : Option Value :=
+  attrs.reverse.findSome? (Attr.mention k)
+
 /-- `k` is a string key (`Key::as_str` answers `Some`). -/
 def isStrKey : Key → Bool
   | .str _ => true
